@@ -32,8 +32,18 @@ fn space_for(tier: Tier) -> Space {
     s.list("flagstrings", 1 + 6 + 36, 64);
     s.list("whitespace under x", crate::checks::c07::xws_cases().len() as u64, 64);
     s.list("escapes, all scalar values, both dialects", escape_list().len() as u64, 8);
+    s.list("many steps, both dialects", (HEAVY.len() * HEAVY_N.len()) as u64, 1);
     s
 }
+
+/// Patterns of the common subset whose first alternative fails only after a number of steps
+/// that grows like Fibonacci(n) on a run of n a's, while a later alternative matches at once:
+/// both dialects must still find the match (10^4 - 10^6 engine steps; explicit step budget).
+/// The last two (N = n): adjacent repeats over one character before a counted repeat that
+/// needs all of it - the only split that works, all of them empty, is tried last (~ C(n+6, 6)
+/// backtracking steps inside one sequence).
+const HEAVY: [&str; 6] = ["(a|aa)*bc|c", "(aa|a)*b|a+c", "(a|aa)+b|ac", "((a|aa)*b)?c", "a*a*a*a*a*a{N}c", "a*a*a*a*a*a*a{N}c"];
+const HEAVY_N: [usize; 6] = [8, 12, 16, 19, 22, 24];
 
 /// Every category, block and multi-character escape in both polarities (block names from
 /// the repository's own block files through the engine's table, plus PrivateUse): none of
@@ -133,6 +143,32 @@ impl Check for C17 {
                     }
                 }
                 out.sample(J::obj(vec![("pattern", J::s(text)), ("flags", J::s("x")), ("dialect", J::s("xsd"))]));
+            }
+            return;
+        }
+        if let SegKind::List { name: "many steps, both dialects" } = seg.kind {
+            for i in lo..hi {
+                let n = HEAVY_N[i as usize % HEAVY_N.len()];
+                let text = &HEAVY[i as usize / HEAVY_N.len()].replace("{N}", &format!("{{{}}}", n));
+                let inp = format!("{}c", "a".repeat(n));
+                out.inc("states");
+                let run = |xsd: bool| -> String {
+                    match imp::compile(text, "", xsd) {
+                        Out::Ok(re) => imp::with_fuel(200_000_000, || format!("is_match={} replace_all={}", imp::is_match(&re, &inp).show(), imp::replace_all(&re, &inp, "<$0>").show())),
+                        o => o.map(|_| ()).show(),
+                    }
+                };
+                let (a, b) = (run(false), run(true));
+                if a.contains("NONTERMINATION") && b.contains("NONTERMINATION") {
+                    out.inc("inconclusive_crash");
+                    continue;
+                }
+                out.add("validated", 2);
+                out.inc("nontrivial");
+                if a != b {
+                    out.fail("C17", &Case::new(&scope_name, text, "").input(&inp).api("is_match, replace_all"), "DialectsDisagree", &format!("as under Regex::xpath: {}", a), &format!("under Regex::xsd: {}", b), "the first alternative fails only after many steps");
+                }
+                out.sample(J::obj(vec![("pattern", J::s(text)), ("input", J::s(&inp))]));
             }
             return;
         }
